@@ -92,8 +92,12 @@ class SymBool:
 
 
 class SymInt:
-    def __init__(self, e):
+    src = None  # digit-string provenance: pieces p with self == int(concat(p)), set by the int() model
+
+    def __init__(self, e, src=None):
         self.e = e
+        if src is not None:
+            self.src = src
 
     def __add__(s, o):
         return mkint(s.e + zi(o))
@@ -108,10 +112,15 @@ class SymInt:
         return mkint(zi(o) - s.e)
 
     def __mul__(s, o):
-        return mkint(s.e * zi(o))
+        r = mkint(s.e * zi(o))
+        if s.src is not None and isinstance(o, int) and not isinstance(o, bool) and isinstance(r, SymInt):
+            k = len(builtins.str(o)) - 1
+            if o == 10**k and k >= 0:
+                r.src = tuple(s.src) + (48,) * k  # times 10^k appends k zero digits
+        return r
 
     def __rmul__(s, o):
-        return mkint(zi(o) * s.e)
+        return s.__mul__(o) if isinstance(o, int) and not isinstance(o, bool) else mkint(zi(o) * s.e)
 
     def __neg__(s):
         return mkint(-s.e)
